@@ -20,7 +20,7 @@ META = dict(
     stubs=loop.STUBS,
     assumptions=loop.LOOP_ASSUMPTIONS,
     bounds=dict(
-        quick="<= K=2 trial steps of the main loop (K=4 without constraints); n=1 user variable (boxed; two shapes with n=2), m in {0, 1 equality, 1 inequality (slack => internal n=2)}; all six penalty policies; symbolic iteration limit in [0,K], time limit, clock, tolerances, lamb_max, rho",
+        quick="<= K=2 trial steps of the main loop (K=4 without constraints); n=1 user variable (boxed; two shapes with n=2), m in {0, 1 equality, 1 inequality (slack => internal n=2)}; all six penalty policies; symbolic iteration limit in [0,K], time limit, clock, tolerances, lamb_max, rho; twin shapes in which the step oracle may also return StepController's failure result (same iterate object, not accepted)",
         thorough="K=3 for all policies (K=4 without constraints); same shapes plus ranged/one-sided rows and free/lower-bounded variables",
     ),
     outside=["runs longer than K trial steps", "n > 1 user variables", "floating-point rounding of path_dist vs direct_dist"],
@@ -34,6 +34,8 @@ def tasks(tier):
         combos = [dict(policy=p, cons=c) for p in pols for c in ([], ["eq0"])] + [dict(policy="DualNorm", cons=["ge"]), dict(policy="ObjectiveFilter", cons=["ge"]), dict(policy="DualNorm", cons=["eq0"], vars=["boxed", "lower"]), dict(policy="LagrangianFilter", cons=[], vars=["free", "boxed"]), dict(policy="DualNorm", cons=["ge"], scaling=dict(vw=[1], cw=[-2], ow=3)), dict(policy="ObjectiveFilter", cons=["eqb"], scaling=dict(vw=[-1], cw=[2], ow=-1))]
         # without constraints the loop is cheap: go deeper (a filter veto needs an earlier accepted
         # step, so veto-then-accept sequences only exist from K=3 on)
-        return loop.loop_tasks(combos, 2) + loop.loop_tasks([dict(policy=p, cons=[]) for p in pols], 4)
+        fails = [dict(c, step_failures=True) for c in combos if c.get("cons") != [] or c.get("vars")] + [dict(policy=p, cons=[], step_failures=True) for p in ("Constant", "DualNorm")]
+        return loop.loop_tasks(combos, 2) + loop.loop_tasks(fails, 2) + loop.loop_tasks([dict(policy=p, cons=[]) for p in pols], 4) + loop.loop_tasks([dict(policy="Constant", cons=[], step_failures=True)], 4)
     combos = [dict(policy=p, cons=c) for p in pols for c in (["eq0"], ["ge"])] + [dict(policy="DualNorm", cons=["ranged"], vars=["lower"]), dict(policy="LagrangianFilter", cons=["le"], vars=["free"])]
-    return loop.loop_tasks(combos, 3) + loop.loop_tasks([dict(policy=p, cons=[]) for p in pols], 4)
+    fails = [dict(c, step_failures=True) for c in combos]
+    return loop.loop_tasks(combos, 3) + loop.loop_tasks(fails, 2) + loop.loop_tasks([dict(policy=p, cons=[]) for p in pols], 4) + loop.loop_tasks([dict(policy=p, cons=[], step_failures=True) for p in pols], 3)
